@@ -3,8 +3,11 @@ package p_proto
 import (
 	"bytes"
 	"encoding/binary"
+	"encoding/json"
 	"fmt"
 	"net"
+	"os"
+	"path/filepath"
 	"sort"
 	"sync"
 	"sync/atomic"
@@ -38,6 +41,7 @@ type c10Net struct {
 	Seeds   []int // peers put into the asker's table before the lookup
 	Target  uint32
 	Content bool // content lookup instead of node lookup
+	Slow    bool // the asker waits 900 ms for a reply and some peers answer after 350..600 ms (late replies after a cancellation)
 }
 
 func genC10Net(t *rapid.T) c10Net {
@@ -58,7 +62,15 @@ func genC10Net(t *rapid.T) c10Net {
 	for i := range seeds {
 		seeds[i] = rapid.IntRange(0, n-1).Draw(t, "seed")
 	}
-	return c10Net{Peers: peers, Seeds: seeds, Target: rapid.Uint32().Draw(t, "target"), Content: rapid.Bool().Draw(t, "contentLookup")}
+	slow := rapid.IntRange(0, 3).Draw(t, "slow") == 0
+	if slow {
+		for i := range peers {
+			if rapid.IntRange(0, 2).Draw(t, "late") == 0 {
+				peers[i].DelayMs = rapid.SampledFrom([]int{350, 450, 600}).Draw(t, "lateMs")
+			}
+		}
+	}
+	return c10Net{Peers: peers, Seeds: seeds, Target: rapid.Uint32().Draw(t, "target"), Content: rapid.Bool().Draw(t, "contentLookup"), Slow: slow}
 }
 
 type peerRT struct {
@@ -67,9 +79,24 @@ type peerRT struct {
 	findReqs atomic.Int32 // FINDNODES with a non-zero distance / FINDCONTENT received
 }
 
-func runC10Net(p c10Net, c *stats.Case) error {
+func runC10Net(p c10Net, c *stats.Case) error { return runC10NetAs("C10", "net", p, c) }
+
+// runC10NetAs runs the scenario on behalf of a property: C10 judges the lookup results, C01 reuses the same
+// hostile / late peers for "no reply can crash the node" (TALKRESPs to our own requests).
+func runC10NetAs(prop, check string, p c10Net, c *stats.Case) error {
+	// a late reply must not kill the node: write the plan ahead, a dead process is reported with it as the replay
+	if dir := os.Getenv("VERIF_WORK"); dir != "" {
+		if b, err := json.Marshal(map[string]any{"property": prop, "check": check, "error": "process died while this plan was executing", "plan": p}); err == nil {
+			_ = os.WriteFile(filepath.Join(dir, fmt.Sprintf("wal-%d.json", os.Getpid())), b, 0o644)
+		}
+	}
 	hub := simnet.NewHub()
-	a, err := pp.NewLive(hub, pp.LiveOpts{KeyIdx: 131, Port: nextPort(), Versions: []byte{0, 1}, UtpFast: true, RespTimeout: 150 * time.Millisecond, NoWorkers: true})
+	respTimeout := 150 * time.Millisecond
+	if p.Slow {
+		respTimeout = 900 * time.Millisecond
+		c.Class("slow-peers")
+	}
+	a, err := pp.NewLive(hub, pp.LiveOpts{KeyIdx: 131, Port: nextPort(), Versions: []byte{0, 1}, UtpFast: true, RespTimeout: respTimeout, NoWorkers: true})
 	if err != nil {
 		return fmt.Errorf("harness: %v", err)
 	}
@@ -101,12 +128,12 @@ func runC10Net(p c10Net, c *stats.Case) error {
 				break
 			}
 		}
-		// the asker counts a query as outstanding until the reply or its 150 ms request time-out, whichever is first;
-		// the peer-side window is therefore closed after 100 ms at the latest, so a handler slowed down by a loaded
+		// the asker counts a query as outstanding until the reply or its request time-out, whichever is first;
+		// the peer-side window is therefore closed after two thirds of that time-out at the latest, so a handler slowed down by a loaded
 		// machine can never be counted longer than the asker itself has the query outstanding
 		var once sync.Once
 		leave := func() { once.Do(func() { inflight.Add(-1) }) }
-		time.AfterFunc(100*time.Millisecond, leave)
+		time.AfterFunc(respTimeout*2/3, leave)
 		if pr.spec.DelayMs > 0 {
 			time.Sleep(time.Duration(pr.spec.DelayMs) * time.Millisecond)
 		}
@@ -239,6 +266,10 @@ func runC10Net(p c10Net, c *stats.Case) error {
 	if p.Content {
 		c.Class("content-lookup")
 		got, _, err := a.P.ContentLookup(contentKeyB, contentID)
+		if p.Slow {
+			time.Sleep(700 * time.Millisecond) // replies that were still under way when the lookup ended arrive now
+			c.NT("late-replies-after-lookup-ended")
+		}
 		for i, pr := range peers {
 			if n := pr.findReqs.Load(); n > 1 {
 				return fmt.Errorf("content lookup asked peer %d %d times", i, n)
@@ -330,3 +361,9 @@ func runC10Net(p c10Net, c *stats.Case) error {
 func TestC10_Net(t *testing.T) { pbt.Run(t, "C10", "net", genC10Net, runC10Net) }
 
 var _ = gen.Key
+
+// TestC01_Lookups: replies of hostile, slow and silent peers to our own FINDNODES / FINDCONTENT requests during
+// real lookups; a reply that arrives after the lookup has ended must not bring the node down.
+func TestC01_Lookups(t *testing.T) {
+	pbt.Run(t, "C01", "lookups", genC10Net, func(p c10Net, c *stats.Case) error { return runC10NetAs("C01", "lookups", p, c) })
+}
